@@ -181,6 +181,8 @@ def handleConc (mS preS ampS thS : String) (obs : List String) : Answer :=
     let (fileS, acksS, invS) := match splitOnChar '/' implObs with
       | [a, b, c] => (a, b, c)
       | _ => ("", "", "")
+    if fileS = "PANIC" then
+      { model := "no-panic", spec := "FAIL:panic in a concurrent run;sig=C04/conc-panic", tags := ["panic"] } else
     match decBytesBig fileS, mapM? (fun t => mapM? decNat (decList ',' t)) (decList '|' acksS) with
     | some file, some acks =>
       if acks.length ≠ threads.length then badCase "acks arity" else
